@@ -295,10 +295,13 @@ DC_SPECS['dc_tuptag'] = dict(name='DcTuptag', opts={'in_format': ['tuple', 'stru
                              fields=[_f('n', 'int'), _f('u', 'tag_ext'), _f('w', 'tag_adj')])
 # containers of typed values as constructor arguments: a list of dataclass instances, a mapping of sets
 DC_SPECS['dc_listdc'] = dict(name='DcListdc', opts={}, fields=[_f('items', ['list', 'dc_struct']), _f('groups', ['dict', 'str', ['set', 'int']], ['factory', 'dict'])])
+# a hook that reads the record of supplied fields: it must see the same record on every construction path and in both passes
+DC_SPECS['dc_setpost'] = dict(name='DcSetpost', opts={'in_format': ['struct', 'tuple']},
+                              fields=[_f('a', 'int'), _f('b', 'int', ['value', '0'])], post=['raise_if_set', 'b', 'ValueError'])
 # a default its own field type does not accept (stored as it is when the field is absent; refused when it is GIVEN)
 DC_SPECS['dc_baddef'] = dict(name='DcBaddef', opts={'in_format': ['struct', 'tuple']},
                              fields=[_f('a', 'int', ['value', 'None']), _f('b', 'int', ['value', '0']), _f('c', 'bool', ['value', 'False'])])
-for _k in ('dc_v1', 'dc_v2', 'dc_i1', 'dc_i2', 'dc_tuptag', 'dc_listdc', 'dc_baddef'):
+for _k in ('dc_v1', 'dc_v2', 'dc_i1', 'dc_i2', 'dc_tuptag', 'dc_listdc', 'dc_baddef', 'dc_setpost'):
     LEAF_TYPES[_k] = (lambda k=_k: [dc_class(k)])
 # tagged unions over them: (layout, {tag: variant leaf})
 TAGGED = {'tag_int': ('internal', {'v1': 'dc_v1', 'v2': 'dc_v2'}), 'tag_ext': ('external', {'v1': 'dc_v1', 'v2': 'dc_v2'}),
@@ -741,7 +744,8 @@ def expressions(tier: str) -> t.List[t.Any]:
                       ['optional', u], ['list', ['list', u]]):
                 add(e)
     for e in ('dc_tuptag', ['list', 'dc_tuptag'], ['optional', 'dc_tuptag'], 'dc_listdc', ['list', 'dc_listdc'], ['dict', 'str', 'dc_listdc'],
-              'dc_baddef', ['list', 'dc_baddef'], ['dict', 'str', 'dc_baddef'], ['union', 'dc_baddef', 'str']):
+              'dc_baddef', ['list', 'dc_baddef'], ['dict', 'str', 'dc_baddef'], ['union', 'dc_baddef', 'str'],
+              'dc_setpost', ['list', 'dc_setpost'], ['optional', 'dc_setpost'], ['union', 'dc_setpost', 'str']):
         add(e)
     for e in (['set', 'dc_hidden'], ['frozenset', 'dc_hidden'], ['dict', 'dc_hidden', 'int'], ['list', ['set', 'dc_hidden']]):
         add(e)
@@ -750,6 +754,13 @@ def expressions(tier: str) -> t.List[t.Any]:
               ['list', ['union', ['tuple', 'int', 'str'], ['tuple', 'str', 'int']]],
               ['union', ['tuple', 'int', ['tuple', 'int', 'str']], ['tuple', 'str', ['tuple', 'str', 'int']]]):
         add(e)
+    # two members that are the SAME container class with different element types: which member a value belongs to is decided by
+    # its elements, never by its class (values of both members meet the same converter one after the other)
+    for a, b in ((['deque', 'int'], ['deque', 'fraction']), (['deque', 'fraction'], ['deque', 'int']),
+                 (['ordereddict', 'str', 'int'], ['ordereddict', 'str', 'decimal']), (['defaultdict', 'str', 'date'], ['defaultdict', 'str', 'int']),
+                 (['counter', 'str'], ['counter', 'int']), (['frozenset', 'int'], ['frozenset', 'date'])):
+        add(['union', a, b])
+        add(['list', ['union', a, b]])
     for tri in (['union', 'int', 'float', 'str'], ['union', 'str', 'int', 'none'], ['union', 'bool', 'int', 'float'],
                 ['union', 'lit_str', ['list', 'int'], 'none'], ['union', 'dc_struct', 'dc_both', 'str']):
         add(tri)
